@@ -187,6 +187,22 @@ func OracleC06(tr *Trace) Verdict {
 					filled = true
 				}
 			}
+			// (plans with an outside writer: a record the outside party puts there ends the vacancy as well -
+			// nobody can, or may, take a key that holds somebody else's live record)
+			for _, o := range os {
+				if !o.Live() || o.FromT < vc.at || o.FromT > t0+B {
+					continue
+				}
+				byCandidate := false
+				for _, c := range avail {
+					if o.Ver.Actor == p.Instances[c.l.inst].ID {
+						byCandidate = true
+					}
+				}
+				if !byCandidate {
+					filled = true // written by the outside party, or by an instance that is not among the candidates (an operation of a stopped one that was still in flight, say)
+				}
+			}
 			// classes
 			lost := true
 			for _, w := range tr.WatchEvs {
